@@ -1340,6 +1340,146 @@ def special_pairs(rng, gen):
 
 
 # ---------------------------------------------------------------------------------------
+# models DERIVED by the library from a composed model: the derived model must be the model composed by hand
+# ---------------------------------------------------------------------------------------
+DERIVE_ROUTES = ["identity", "partial", "partial", "replacing", "args", "with_limits", "means_a", "means_r", "uniform_floats",
+                 "result_absolute", "result_relative", "result_bounded", "copy", "freeze", "freeze_unfreeze", "freeze_derive"]
+INF = float("inf")
+
+
+def derive_eligible(spec):
+    """arithmetic priors are not carried through gaussian_prior_model_for_arguments by the library (the operands of a
+    CompoundPrior keep the old priors): outside what is derived here"""
+    return not (features(spec) & {"arith"}) and has_prior_spec(spec["model"])
+
+
+def used_refs(spec):
+    return sorted({n["ref"] for _, n in walk_spec(spec["model"]) if n["t"] == "prior"})
+
+
+def limited(p, lo_, hi_):
+    """Prior.with_limits of each family, as documented: Uniform / LogGaussian are tightened, Gaussian is centred between
+    the limits with their distance as sigma, LogUniform takes them (lower at least 1e-6)"""
+    fam = p["fam"]
+    lo, hi = unhex(p["lo"]), unhex(p["hi"])
+    if fam == "Uniform":
+        return {"fam": fam, "lo": hx(max(lo_, lo)), "hi": hx(min(hi_, hi))}
+    if fam == "LogUniform":
+        return {"fam": fam, "lo": hx(max(0.000001, lo_)), "hi": hx(hi_)}
+    if fam == "Gaussian":
+        return {"fam": fam, "lo": hx(-INF), "hi": hx(INF), "mean": hx((lo_ + hi_) / 2), "sigma": hx(hi_ - lo_)}
+    return {"fam": fam, "lo": hx(max(lo_, lo)), "hi": hx(min(hi_, hi)), "mean": p["mean"], "sigma": p["sigma"]}
+
+
+def derive_step(rng, gen, S, route=None):
+    """(D, H): one derivation request for the library and the equal specification composed by hand"""
+    used = used_refs(S)
+    route = route or rng.choice(DERIVE_ROUTES)
+    D, H = {"route": route}, _copy.deepcopy(S)
+    H.pop("build", None)
+    pool = S["pool"]
+    q = lambda v: rng.randint(-40, 40) / 8.0 if rng.random() < 0.5 else round(v, rng.randint(1, 6))
+    if route in ("partial", "replacing", "freeze_derive", "args"):
+        sub = used if route == "args" else rng.sample(used, rng.randint(1, max(1, (len(used) + 1) // 2)))
+        D["new"] = {str(i): gen.prior_spec() for i in sorted(sub)}
+        for i in sub:
+            H["pool"][i] = D["new"][str(i)]
+    elif route == "with_limits":
+        D["limits"] = {}
+        for i in used:
+            p = pool[i]
+            lo, hi = unhex(p["lo"]), unhex(p["hi"])
+            if lo == -INF or hi == INF:
+                c = unhex(p["mean"])
+                lo_, hi_ = abs(c) * 0.5 + 0.25, abs(c) * 0.5 + rng.choice([1.5, 2.0, 7.25])
+                if p["fam"] == "Gaussian":
+                    lo_, hi_ = c - rng.choice([0.5, 1.0, 3.25]), c + rng.choice([0.5, 2.0])
+                if lo not in (-INF,) and lo_ <= lo:
+                    lo_ = lo + 0.125
+                if hi != INF and hi_ >= hi:
+                    hi_ = hi
+                if not lo_ < hi_:
+                    lo_, hi_ = lo_, lo_ + 1.0
+            else:
+                w = hi - lo
+                lo_ = lo + w * rng.choice([-0.5, 0.0, 0.125, 0.25])
+                hi_ = hi - w * rng.choice([-0.5, 0.0, 0.125, 0.25])
+                if p["fam"] == "LogUniform" and lo_ <= 0:
+                    lo_ = lo
+            D["limits"][str(i)] = [hx(lo_), hx(hi_)]
+            H["pool"][i] = limited(p, lo_, hi_)
+    elif route in ("means_a", "means_r", "result_absolute", "result_relative", "uniform_floats", "result_bounded"):
+        D["means"] = {}
+        width = rng.choice([0.125, 0.5, 1.0, 2.5, 0.3])
+        key = {"means_a": "a", "result_absolute": "a", "means_r": "r", "result_relative": "r"}.get(route, "b")
+        D[key] = hx(width)
+        if route.startswith("result"):
+            D["via_result"] = rng.random() < 0.5
+        D["no_limits"] = route in ("means_a", "means_r") and rng.random() < 0.5
+        for i in used:
+            p = pool[i]
+            lo, hi = unhex(p["lo"]), unhex(p["hi"])
+            m = q(rng.uniform(lo, hi)) if lo != -INF and hi != INF else q(unhex(p["mean"]) + rng.uniform(-1, 1))
+            if m == 0.0 and key == "r":
+                m = 0.5
+            D["means"][str(i)] = hx(m)
+            if key == "b":
+                H["pool"][i] = {"fam": "Uniform", "lo": hx(m - width), "hi": hx(m + width)}
+            else:
+                lim = (hx(-INF), hx(INF)) if D["no_limits"] else (p["lo"], p["hi"])
+                H["pool"][i] = {"fam": "Gaussian", "lo": lim[0], "hi": lim[1], "mean": hx(m),
+                                "sigma": hx(width if key == "a" else width * abs(m))}
+    return D, H
+
+
+def derive_cases(rng, gen, S, quick):
+    """pairs (model composed by hand, model derived by the library from S) that must share one identifier -- directly,
+    through the files a fit of the derived model writes, and after a second derivation -- and the derived model itself
+    for the correspondence"""
+    if not derive_eligible(S):
+        return []
+    out = []
+    base = _copy.deepcopy(S)
+    base.pop("build", None)
+    routes = rng.sample(sorted(set(DERIVE_ROUTES)), 3 if quick else 6)
+    if "item_number" in features(S):        # positional collections: every replacing route is tried over a few bases
+        routes = sorted(set(routes) | {rng.choice(["identity", "partial", "args", "with_limits", "means_a", "uniform_floats"])})
+    for route in routes:
+        D, H = derive_step(rng, gen, base, route)
+        steps, hand = [D], H
+        if rng.random() < 0.3:              # a derived model is derived again (a cell of a grid over a passed prior model)
+            D2, hand = derive_step(rng, gen, H, rng.choice(["partial", "with_limits", "means_a", "identity", "copy", "uniform_floats"]))
+            steps.append(D2)
+        how = "derive:" + "+".join(d["route"] for d in steps)
+        b = with_build(base, derive=steps)
+        out.append({"kind": "pair", "how": how, "expect": "same", "a": hand, "b": b, "labels": []})
+        r = rng.random()
+        if r < 0.5:
+            out.append({"kind": "pair", "how": "derive_files:" + how[7:], "expect": "same", "a": hand,
+                        "b": with_build(base, derive=steps, route="files", export=rng.random() < 0.3), "labels": []})
+        if r > (0.6 if quick else 0.3):
+            out.append({"kind": "fit", "spec": b, "hand": hand})
+        # the derived model still differs from the model it was derived from whenever a prior changed
+        if hand["pool"] != base["pool"] and rng.random() < 0.3 and _json.dumps(hand["pool"], sort_keys=True) != _json.dumps(base["pool"], sort_keys=True):
+            changed = [i for i in used_refs(base) if hand["pool"][i] != base["pool"][i]]
+            if any(prior_distinct(hand["pool"][i], base["pool"][i]) for i in changed):
+                out.append({"kind": "pair", "how": "derive_differs", "expect": "differ", "a": base, "b": b, "labels": []})
+    return out
+
+
+def prior_distinct(p, q):
+    """two prior specifications whose descriptions differ clearly (family, or a parameter by more than the resolution)"""
+    if p["fam"] != q["fam"]:
+        return True
+    keys = ("lo", "hi") + (("mean", "sigma") if p["fam"] in ("Gaussian", "LogGaussian") else ())
+    for k in keys:
+        a, b = unhex(p[k]), unhex(q[k])
+        if a != b and (a in (INF, -INF) or b in (INF, -INF) or abs(a - b) > 2.5e-8):
+            return True
+    return False
+
+
+# ---------------------------------------------------------------------------------------
 # generic values for the walk
 # ---------------------------------------------------------------------------------------
 def gen_value(rng, depth=0):
@@ -1461,6 +1601,7 @@ def gen_cases(ctx):
                 b = with_build(S, route="refit")
                 b["then"] = {"model": other["b"]["model"], "pool": other["b"]["pool"], "tag": other["b"].get("tag")}
                 cases.append({"kind": "pair", "how": "refit", "expect": "same", "a": S, "b": b, "labels": []})
+        cases += derive_cases(rng, gen, S, quick)
         if fit_eligible(S) and fits < (6 if quick else 60):
             fits += 1
             a = _copy.deepcopy(S)
